@@ -150,6 +150,9 @@ func (p *proverCtx) varFor(lv lvar) *linexp {
 	// len/cap of a load of a stable field: all loads of base.f denote the same slice
 	if lv.kind == 'l' || lv.kind == 'c' {
 		if ld, ok := lv.v.(*ssa.UnOp); ok && ld.Op == token.MUL {
+			if sv := singleStoreValue(ld); sv != nil {
+				return p.varFor(lvar{v: sv, kind: lv.kind})
+			}
 			if fa, ok := ld.X.(*ssa.FieldAddr); ok && p.stableField(fa) {
 				k := byte('L')
 				if lv.kind == 'c' {
@@ -614,6 +617,21 @@ func (p *proverCtx) lin(v ssa.Value) *linexp {
 			}
 			e := p.varFor(lvar{v: v, kind: 'v'})
 			lo, hi, hasLo, hasHi := p.c.resultRange(origin(sc), 0)
+			if (!hasLo || !hasHi) && p.depth < 3 {
+				// a small unexported helper with several returns (a clamp, a rounding): bound each return with the
+				// constant bounds the arguments have at THIS call
+				if h := plainHelper(sc); h != nil && len(h.Blocks) <= 8 && h.Signature.Results().Len() == 1 {
+					p.depth++
+					clo, chi, cl, ch := p.resultRangeAt(h, x)
+					p.depth--
+					if !hasLo && cl {
+						lo, hasLo = clo, true
+					}
+					if !hasHi && ch {
+						hi, hasHi = chi, true
+					}
+				}
+			}
 			if hasLo {
 				p.addFact(e.addConst(-lo), "summary: "+fnName(sc)+" returns >= "+fmt.Sprint(lo))
 			}
@@ -626,6 +644,9 @@ func (p *proverCtx) lin(v ssa.Value) *linexp {
 		if x.Op == token.MUL {
 			if fwd := forwardedStore(x); fwd != nil {
 				return p.lin(fwd)
+			}
+			if sv := singleStoreValue(x); sv != nil {
+				return p.lin(sv)
 			}
 			// a field of the current element of a loop over a local constant table: one of the table's constants
 			if vals, ok := constTableField(x); ok && isInteger(x.Type()) {
@@ -862,6 +883,9 @@ func (c *Ctx) newProver(f *ssa.Function, b *ssa.BasicBlock) *proverCtx {
 	// outermost guard first: a later fact may need an earlier one to see through a conversion
 	// (uint -> int of a count that an earlier guard bounds)
 	fts := factsAt(f, b)
+	if c.proverPre != nil {
+		c.proverPre(p) // facts that must be in place before the branch conditions are read (argument bounds)
+	}
 	// facts read out of a predicate helper speak about its parameters: they stand for the call's arguments
 	for prm, arg := range predicateArgs(fts) {
 		if p.subst == nil {
@@ -1170,6 +1194,74 @@ func (c *Ctx) resultRange(f *ssa.Function, idx int) (lo, hi int64, hasLo, hasHi 
 	return lo, hi, hasLo, hasHi
 }
 
+// resultRangeAt: constant bounds of the integer result of helper h at call cl: every return is bounded with
+// the helper's own branch facts plus the constant bounds the integer arguments have at the call.
+func (p *proverCtx) resultRangeAt(h *ssa.Function, cl *ssa.Call) (lo, hi int64, hasLo, hasHi bool) {
+	rets := returnsOf(h)
+	if len(rets) == 0 || p.c.rangeBusy[h] {
+		return
+	}
+	if p.c.rangeBusy == nil {
+		p.c.rangeBusy = map[*ssa.Function]bool{}
+	}
+	p.c.rangeBusy[h] = true
+	defer delete(p.c.rangeBusy, h)
+	type bnd struct {
+		lo, hi     int64
+		okLo, okHi bool
+	}
+	args := map[*ssa.Parameter]bnd{}
+	for i, prm := range h.Params {
+		if i >= len(cl.Call.Args) || !isInteger(prm.Type()) {
+			continue
+		}
+		e := p.lin(cl.Call.Args[i])
+		var b bnd
+		b.lo, b.okLo = findBound(p, e, true)
+		b.hi, b.okHi = findBound(p, e, false)
+		args[prm] = b
+	}
+	hasLo, hasHi = true, true
+	first := true
+	for _, r := range rets {
+		if len(r.Results) != 1 || !isInteger(r.Results[0].Type()) {
+			return 0, 0, false, false
+		}
+		savedPre := p.c.proverPre
+		p.c.proverPre = func(q *proverCtx) {
+			if q.f != h {
+				return
+			}
+			for prm, b := range args {
+				pe := q.lin(prm)
+				if b.okLo {
+					q.addFact(pe.addConst(-b.lo), "argument bound at the call")
+				}
+				if b.okHi {
+					q.addFact(pe.scale(-1).addConst(b.hi), "argument bound at the call")
+				}
+			}
+		}
+		q := p.c.newProver(h, r.Block())
+		p.c.proverPre = savedPre
+		e := q.lin(retVal(r, 0))
+		rlo, okLo := findBound(q, e, true)
+		rhi, okHi := findBound(q, e, false)
+		hasLo, hasHi = hasLo && okLo, hasHi && okHi
+		if first {
+			lo, hi, first = rlo, rhi, false
+			continue
+		}
+		if rlo < lo {
+			lo = rlo
+		}
+		if rhi > hi {
+			hi = rhi
+		}
+	}
+	return
+}
+
 // findBound tries a few candidate constants for a lower (or upper) bound of e.
 func findBound(p *proverCtx, e *linexp, lower bool) (int64, bool) {
 	if e.isConst() && e.k.IsInt() {
@@ -1229,29 +1321,10 @@ func (p *proverCtx) consumingLoop(phi *ssa.Phi) {
 		if ifi == nil {
 			continue
 		}
-		cond, ok := ifi.Cond.(*ssa.BinOp)
-		if !ok || cond.Op != token.LSS {
+		N := tripCount(hdr, ifi)
+		if N == nil {
 			continue
 		}
-		iv, ok := cond.X.(*ssa.Phi)
-		if !ok || iv.Block() != hdr || len(iv.Edges) != 2 {
-			continue
-		}
-		// iv = phi(0, iv+1)
-		okIV := false
-		for j := 0; j < 2; j++ {
-			if z, ok := constInt(iv.Edges[j]); ok && z == 0 {
-				if bo, ok := iv.Edges[1-j].(*ssa.BinOp); ok && bo.Op == token.ADD && bo.X == ssa.Value(iv) {
-					if one, ok := constInt(bo.Y); ok && one == 1 {
-						okIV = true
-					}
-				}
-			}
-		}
-		if !okIV {
-			continue
-		}
-		N := cond.Y
 		// the site must be inside the loop body: dominated by the true edge of the header's If
 		if !edgeDominates(pf, edge{hdr, 0}, pblock) {
 			continue
@@ -1325,6 +1398,74 @@ func (p *proverCtx) consumingLoop(phi *ssa.Phi) {
 		p.addFact(p.varFor(lvar{v: phi, kind: 'l'}).sub(p.lin(s)), "consuming-loop lemma: len(b0) >= N*s before the loop, b = b[s:] once per iteration, i < N")
 		return
 	}
+}
+
+// tripCount: the value N such that the body of the loop headed by hdr (true edge of its If) runs only while
+// fewer than N iterations have been completed: "i < N" with i = 0, 1, ..; the index of a range over a slice
+// (go/ssa: i = -1; i+1 < len); or a countdown "r > 0" with r = N, N-1, ... A length of a slice made with a known
+// size is that size.
+func tripCount(hdr *ssa.BasicBlock, ifi *ssa.If) ssa.Value {
+	cond, ok := ifi.Cond.(*ssa.BinOp)
+	if !ok {
+		return nil
+	}
+	step := func(iv *ssa.Phi, init, delta int64) (other ssa.Value, ok bool) {
+		if iv.Block() != hdr || len(iv.Edges) != 2 {
+			return nil, false
+		}
+		for j := 0; j < 2; j++ {
+			bo, isBo := iv.Edges[1-j].(*ssa.BinOp)
+			if !isBo || bo.X != ssa.Value(iv) {
+				continue
+			}
+			one, isK := constInt(bo.Y)
+			if !isK || !((bo.Op == token.ADD && one == delta) || (bo.Op == token.SUB && one == -delta)) {
+				continue
+			}
+			if init >= -1 {
+				if z, isZ := constInt(iv.Edges[j]); isZ && z == init {
+					return bo, true
+				}
+				continue
+			}
+			return iv.Edges[j], true // countdown: the initial value is the count
+		}
+		return nil, false
+	}
+	var N ssa.Value
+	switch cond.Op {
+	case token.LSS:
+		if iv, ok := cond.X.(*ssa.Phi); ok {
+			if _, ok := step(iv, 0, 1); ok {
+				N = cond.Y
+			}
+		} else if inc, ok := cond.X.(*ssa.BinOp); ok && inc.Op == token.ADD {
+			if iv, ok := inc.X.(*ssa.Phi); ok {
+				if nx, ok := step(iv, -1, 1); ok && nx == ssa.Value(inc) {
+					N = cond.Y
+				}
+			}
+		}
+	case token.GTR:
+		if z, ok := constInt(cond.Y); ok && z == 0 {
+			if iv, ok := cond.X.(*ssa.Phi); ok {
+				if n0, ok := step(iv, -2, -1); ok {
+					N = n0
+				}
+			}
+		}
+	}
+	if N == nil {
+		return nil
+	}
+	if cl := callOf(N); cl != nil {
+		if bi, ok := cl.Call.Value.(*ssa.Builtin); ok && bi.Name() == "len" {
+			if mk, ok := cl.Call.Args[0].(*ssa.MakeSlice); ok {
+				N = mk.Len
+			}
+		}
+	}
+	return N
 }
 
 func sameVal(a, b ssa.Value) bool {
@@ -1657,4 +1798,46 @@ func maxF(xs []float64) float64 {
 		}
 	}
 	return m
+}
+
+// singleStoreValue: ld loads a local variable that lives in memory (it is captured or has its address
+// taken) but is assigned exactly once, in a block that dominates the load, and is never handed to a
+// closure or a call that could write it: the load yields that one value.
+func singleStoreValue(ld *ssa.UnOp) ssa.Value {
+	al, ok := ld.X.(*ssa.Alloc)
+	if !ok || ld.Block() == nil {
+		return nil
+	}
+	var st *ssa.Store
+	for _, r := range *al.Referrers() {
+		switch x := r.(type) {
+		case *ssa.Store:
+			if x.Addr != ssa.Value(al) {
+				// the address is handed out: harmless when that can only happen after the load
+				if x.Block() == ld.Block() || reachableFrom(x.Block(), nil)[ld.Block()] {
+					return nil
+				}
+				continue
+			}
+			if st != nil {
+				return nil
+			}
+			st = x
+		case *ssa.UnOp, *ssa.DebugRef:
+		case *ssa.IndexAddr, *ssa.FieldAddr:
+			// element / field writes do not change the slice header or the identity of the value loaded for len
+			if _, isSlice := al.Type().(*types.Pointer).Elem().Underlying().(*types.Slice); !isSlice {
+				return nil
+			}
+		default:
+			return nil
+		}
+	}
+	if st == nil || st.Block() == nil || !st.Block().Dominates(ld.Block()) {
+		return nil
+	}
+	if st.Block() == ld.Block() && !before(st, ld) {
+		return nil
+	}
+	return st.Val
 }
